@@ -233,7 +233,42 @@ def _uobj1(obj: Any) -> Optional[CustomErr]:
     return CustomErr(1)
 
 
-UOBJ = {0: _uobj0, 1: _uobj1, 2: _obj_len_parity}
+class _Rules:
+    """Object checks are handed out as bound methods: every access yields a new, equal method
+    object, as `rules.check` does in user code."""
+
+    def obj0(self, obj: Any) -> Optional[CustomErr]:
+        return _uobj0(obj)
+
+    def obj1(self, obj: Any) -> Optional[CustomErr]:
+        return _uobj1(obj)
+
+    def obj2(self, obj: Any) -> Optional[CustomErr]:
+        return _obj_len_parity(obj)
+
+    async def aobj0(self, obj: Any) -> Optional[CustomErr]:
+        return await _uaobj0(obj)
+
+    async def aobj1(self, obj: Any) -> Optional[CustomErr]:
+        return await _uaobj1(obj)
+
+    async def aobj2(self, obj: Any) -> Optional[CustomErr]:
+        return await _uaobj2(obj)
+
+
+_RULES = _Rules()
+
+
+class _Bound(dict):
+    def __init__(self, prefix: str) -> None:
+        super().__init__()
+        self.prefix = prefix
+
+    def __getitem__(self, i: int) -> Any:
+        return getattr(_RULES, f"{self.prefix}{i}")
+
+
+UOBJ = _Bound("obj")
 
 
 async def _uaobj0(obj: Any) -> Optional[CustomErr]:
@@ -254,7 +289,7 @@ async def _uaobj2(obj: Any) -> Optional[CustomErr]:
     return _obj_len_parity(obj)
 
 
-UAOBJ = {0: _uaobj0, 1: _uaobj1, 2: _uaobj2}
+UAOBJ = _Bound("aobj")
 
 # ---------------------------------------------------------------- user-written validators
 # uvalid id mode x.  CALLS logs (id, mode) for every invocation (reset per run).
